@@ -1247,10 +1247,12 @@ Definition holds_C07_life_step (o o' : order) : bool :=
   (o_offer o' =? o_offer o) && (o_amt o' =? o_amt o) && (o_price o' =? o_price o) && Bool.eqb (o_buy o') (o_buy o).
 
 (* known finding C05-F2 (C05-F1 through the keeper): the engine's fills of a batch of the app do not conserve the
-   base coin of a pair ([base_nets] = [batch_base_net] of the engine's batches of the app, one per pair).  When the
-   pair escrow cannot cover the deficit, ApplyMatchResult's bulk send fails, ExecuteRequests panics on the error and
-   ApplyFuncIfNoError rolls the WHOLE batch of the app back - at this block and at every following one, because
-   the same book is matched again (expiry is part of the rolled-back batch) *)
+   base coin of a pair ([base_nets] = [batch_base_net] of the engine's batches of the app: those of the current
+   block and those applied at earlier blocks).  When the pair escrow cannot cover the deficit - at once, because
+   ApplyMatchResult's bulk send fails, or later, when the refund of an expiring / completed order of that pair
+   fails - ExecuteRequests panics on the error and ApplyFuncIfNoError rolls the WHOLE batch of the app back, at
+   that block and at every following one: the same book is matched and the same order expired again (expiry is
+   part of the rolled-back batch, and an order cannot be cancelled in its placement batch) *)
 Definition kf_C05_2_stall (base_nets : list Z) : bool := existsb (fun n => negb (n =? 0)) base_nets.
 
 (* C04, on observed balances and records *)
